@@ -1,7 +1,388 @@
-/- Driver glue for C07: case lines `c07.<sub> <args…> | <impl…>` (stub until the property is built) -/
-import FileD.Prelude.Tok
-namespace FileD.DrvC07
+/-
+  Driver glue for C07. Case lines (`T` = table tokens `<njobs> (<file> <inode> <src> <ts> <k> (<stream> <off>)…)…`,
+  `L` = load result `ok <n> (<file> <src> <ts> <k> (<stream> <off>)…)… | err | panic:bounds`, jobs by
+  source id and streams by name):
 
-def handle (_cmd : String) (_args _impl : List String) : Option (String × String) := none
+    c07.rt <now> T                       | <n> <src…snapshot order> <file bytes> L
+    c07.parse <now> <content>            | L
+    c07.seq <nsrc> <nops> (c <src> <stream> <off> | t <src> | s)…
+                                         | per op: `c` / `corrupt` / `t` / `s <n> <src…order> L`
+    c07.conc <nsrc> <ncommits> <nsaves>  | event log: cs.<i>.<k> cd.<i>.<k> ss se L   (oracle only: real goroutines)
+    c07.proto file <nf> (<act> <op>)… <hasold> T T
+                                         | <n> <trace…> killed <0|1> disk <hex|none> load L
+    c07.proto gen  <nf> (<act> <op>)… <hasold> <old> <new>
+                                         | <n> <trace…> killed <0|1> disk <hex|none> load <hex|none|err>
+  trace tokens: open.<ok> write.<n>.<ok> fsync.<ok> rename.<ok> close.<ok> unlink.<ok>
+-/
+import FileD.Prelude.Tok
+import FileD.Model.OffsetsFile
+import FileD.Model.SaveProto
+import FileD.Model.CommitSnap
+import FileD.Spec.C07
+namespace FileD.DrvC07
+open FileD Tok FileD.OffsetsFile FileD.SpecC07
+
+abbrev P (α : Type) := List String → Option (α × List String)
+
+def tok : P String
+  | [] => none
+  | t :: ts => some (t, ts)
+
+def pNat : P Nat := fun ts => do let (t, r) ← tok ts; let n ← nat? t; pure (n, r)
+def pInt : P Int := fun ts => do let (t, r) ← tok ts; let n ← int? t; pure (n, r)
+def pBytes : P Bytes := fun ts => do let (t, r) ← tok ts; let b ← bytes? t; pure (b, r)
+
+def pRep {α} (p : P α) : Nat → P (List α)
+  | 0, ts => some ([], ts)
+  | n + 1, ts => do
+    let (x, r) ← p ts
+    let (xs, r') ← pRep p n r
+    pure (x :: xs, r')
+
+def pCounted {α} (p : P α) : P (List α) := fun ts => do
+  let (n, r) ← pNat ts
+  pRep p n r
+
+def pStream : P (Bytes × Int) := fun ts => do
+  let (s, r) ← pBytes ts
+  let (o, r) ← pInt r
+  pure ((s, o), r)
+
+/-- a job of a case line: streams are applied with `SliceMap.Set`, as the harness does -/
+def pJob : P Job := fun ts => do
+  let (f, r) ← pBytes ts
+  let (ino, r) ← pNat r
+  let (src, r) ← pNat r
+  let (t, r) ← pInt r
+  let (ss, r) ← pCounted pStream r
+  pure (⟨f, ino, src, t, ss.foldl (fun m kv => setOffset m kv.1 kv.2) []⟩, r)
+
+def pTable : P JobTable := pCounted pJob
+
+/-- a job of a load result (no inode) -/
+def pLoadedJob : P Job := fun ts => do
+  let (f, r) ← pBytes ts
+  let (src, r) ← pNat r
+  let (t, r) ← pInt r
+  let (ss, r) ← pCounted pStream r
+  pure (⟨f, 0, src, t, ss⟩, r)
+
+def pLoaded : P (PM JobTable)
+  | "ok" :: ts => do
+    let (js, r) ← pCounted pLoadedJob ts
+    pure (.ok js, r)
+  | "err" :: ts => some (.error .format, ts)
+  | "panic:bounds" :: ts => some (.error .panicBounds, ts)
+  | _ => none
+
+def encStream (kv : Bytes × Int) : String := Hex.enc kv.1 ++ " " ++ toString kv.2
+
+def encLoadedJob (j : Job) : String :=
+  unwords [Hex.enc j.filename, toString j.sourceID, toString j.ts, encList encStream j.offsets]
+
+def encLoaded : PM JobTable → String
+  | .ok t => "ok " ++ encList encLoadedJob (canon t)
+  | .error .format => "err"
+  | .error .panicBounds => "panic:bounds"
+  | .error .fuel => "model-fuel"
+
+/-- the Go map `jobs` of the harness: a later job with the same source id replaces an earlier one -/
+def lastWith (t : JobTable) (src : Nat) : Option Job :=
+  (t.reverse).find? (fun j => j.sourceID == src)
+
+def distinctNat : List Nat → Bool
+  | [] => true
+  | x :: xs => !xs.contains x && distinctNat xs
+
+/-- the snapshot in the order the implementation's map iteration visited the jobs -/
+def inOrder (t : JobTable) (order : List Nat) : Option JobTable :=
+  if distinctNat order && t.all (fun j => order.contains j.sourceID)
+     && order.all (fun s => (lastWith t s).isSome)
+  then some (order.filterMap (lastWith t)) else none
+
+/-! ### c07.rt / c07.parse -/
+
+def handleRt (args impl : List String) : Option (String × String) := do
+  let (now, r) ← pInt args
+  let (t, r) ← pTable r
+  if r ≠ [] then none
+  match pCounted pNat impl with
+  | none => some ("bad-impl", if impl.head? == some "panic:bounds" then "fail" else "bad-impl")
+  | some (order, irest) =>
+    match inOrder t order with
+    | none => some ("bad-order", "bad-impl")
+    | some snap =>
+      let bytes := render snap
+      let m := unwords [encList toString order, Hex.enc bytes, encLoaded (parse now bytes)]
+      let p := match irest with
+        | _file :: lr =>
+          match pLoaded lr with
+          | some (l, []) => if rtHolds snap l then "ok" else "fail"
+          | _ => "bad-impl"
+        | [] => "bad-impl"
+      pure (m, p)
+
+def handleParse (args impl : List String) : Option (String × String) := do
+  let (now, r) ← pInt args
+  let (c, r) ← pBytes r
+  if r ≠ [] then none
+  let p := match pLoaded impl with
+    | some (_, []) => "ok"
+    | _ => "bad-impl"
+  pure (encLoaded (parse now c), p)
+
+/-! ### c07.seq: real commits / truncations / saves in a sequential schedule -/
+
+inductive SeqOp
+  | c (src : Nat) (stream : Bytes) (off : Int)
+  | t (src : Nat)
+  | s
+
+def pSeqOp : P SeqOp
+  | "c" :: ts => do
+    let (src, r) ← pNat ts
+    let (st, r) ← pBytes r
+    let (o, r) ← pInt r
+    pure (.c src st o, r)
+  | "t" :: ts => do
+    let (src, r) ← pNat ts
+    pure (.t src, r)
+  | "s" :: ts => some (.s, ts)
+  | _ => none
+
+/-- the jobs the harness creates for source `i`: file name "f<i>", inode i, timestamp 0 -/
+def seqJob (e : CommitSnap.Entry) : Job :=
+  ⟨(str "f") ++ renderNat e.1, e.1, e.1, 0, e.2⟩
+
+def visits : Nat → List CommitSnap.Op
+  | 0 => []
+  | n + 1 => .saveVisit :: visits n
+
+/-- replay the sequential schedule; returns (model tokens, oracle verdict). `impl` supplies the
+    map iteration order of each save and the loaded tables the oracle looks at. -/
+def seqLoop : List SeqOp → List String → CommitSnap.St → List String → Bool → Option (List String × Bool)
+  | [], impl, _, acc, ok => if impl = [] then some (acc, ok) else none
+  | .c src st o :: ops, impl, s, acc, ok =>
+    match impl with
+    | _ :: irest =>
+      match CommitSnap.step? s (.commit src st o) with
+      | none => seqLoop ops irest s (acc ++ ["corrupt"]) ok
+      | some s' => seqLoop ops irest s' (acc ++ ["c"]) ok
+    | [] => none
+  | .t src :: ops, impl, s, acc, ok =>
+    match impl with
+    | _ :: irest =>
+      match CommitSnap.step? s (.truncate src) with
+      | none => none
+      | some s' => seqLoop ops irest s' (acc ++ ["t"]) ok
+    | [] => none
+  | .s :: ops, impl, s, acc, ok =>
+    match impl with
+    | "s" :: irest =>
+      match pCounted pNat irest with
+      | none => none
+      | some (order, irest) =>
+        match pLoaded irest with
+        | none => none
+        | some (loaded, irest) =>
+          match CommitSnap.run s (.saveBegin order :: (visits order.length ++ [.saveEnd])) with
+          | none => some (acc ++ ["bad-order"], false)
+          | some s' =>
+            match s'.snaps.getLast? with
+            | none => none
+            | some (buf, n) =>
+              let snap := buf.map seqJob
+              let m := encLoaded (parse 0 (render snap))
+              -- oracle: every loaded (source, offsets) is a value that job's offsets had before
+              let hist := (s'.hist.take n).map (fun e => (e.1, (canonJob (seqJob e)).offsets))
+              let good := match loaded with
+                | .ok l => l.all (fun j => hist.contains (j.sourceID, (canonJob j).offsets))
+                | .error _ => false
+              seqLoop ops irest s' (acc ++ ["s", encList toString order, m]) (ok && good)
+    | _ => none
+
+def handleSeq (args impl : List String) : Option (String × String) := do
+  let (nsrc, r) ← pNat args
+  let (ops, r) ← pCounted pSeqOp r
+  if r ≠ [] then none
+  let s0 ← CommitSnap.run CommitSnap.init ((List.range nsrc).map (fun i => .addJob (i + 1)))
+  match seqLoop ops impl s0 [] true with
+  | none => some ("bad-impl", if impl.any (·.startsWith "panic") then "fail" else "bad-impl")
+  | some (m, ok) => some (unwords m, if ok then "ok" else "fail")
+
+/-! ### c07.conc: commits racing a saver (real goroutines); the event log is the case's result -/
+
+inductive ConcEv
+  | cs (i k : Nat) | cd (i k : Nat) | ss | se (l : PM JobTable)
+
+def pConcEvs : Nat → List String → Option (List ConcEv)
+  | 0, ts => if ts = [] then some [] else none
+  | _ + 1, [] => some []
+  | f + 1, "ss" :: ts => (pConcEvs f ts).map (ConcEv.ss :: ·)
+  | f + 1, "se" :: ts => do
+    let (l, r) ← pLoaded ts
+    let rest ← pConcEvs f r
+    pure (.se l :: rest)
+  | f + 1, t :: ts =>
+    match t.splitOn "." with
+    | ["cs", a, b] => do
+      let i ← nat? a; let k ← nat? b
+      let rest ← pConcEvs f ts
+      pure (.cs i k :: rest)
+    | ["cd", a, b] => do
+      let i ← nat? a; let k ← nat? b
+      let rest ← pConcEvs f ts
+      pure (.cd i k :: rest)
+    | _ => none
+
+/-- offsets of a source after its first k commits: 10·j to stream "a" (j odd) / "b" (j even) -/
+def concState : Nat → CommitSnap.SMap
+  | 0 => []
+  | k + 1 => setOffset (concState k) (if (k + 1) % 2 = 1 then [97] else [98]) (10 * ((k + 1 : Nat) : Int))
+
+def bump (l : List Nat) (i : Nat) : List Nat :=
+  (l.zipIdx).map (fun (x, j) => if j + 1 = i then x + 1 else x)
+
+/-- source i's loaded entry must be its state after k commits for some k between the commits that
+    had returned when the save started and those that had started when it returned -/
+def concEntryOk (loaded : JobTable) (i lo hi : Nat) : Bool :=
+  match loaded.find? (fun j => j.sourceID == i) with
+  | none => lo == 0
+  | some j =>
+    j.filename == (seqJob (i, [])).filename &&
+    (List.range (hi + 1)).any (fun k => decide (lo ≤ k) && decide (1 ≤ k) &&
+      (canonJob j).offsets == (canonJob (seqJob (i, concState k))).offsets)
+
+def concCheck (nsrc : Nat) : List ConcEv → List Nat → List Nat → Option (List Nat) → Bool
+  | [], _, _, _ => true
+  | .cs i _ :: evs, started, done, lo => concCheck nsrc evs (bump started i) done lo
+  | .cd i _ :: evs, started, done, lo => concCheck nsrc evs started (bump done i) lo
+  | .ss :: evs, started, done, _ => concCheck nsrc evs started done (some done)
+  | .se l :: evs, started, done, lo =>
+    (match l, lo with
+     | .ok loaded, some los =>
+       loaded.all (fun j => decide (1 ≤ j.sourceID ∧ j.sourceID ≤ nsrc)) &&
+       (List.range nsrc).all (fun n => concEntryOk loaded (n + 1) (los.getD n 0) (started.getD n 0))
+     | _, _ => false) && concCheck nsrc evs started done none
+
+def handleConc (args impl : List String) : Option (String × String) := do
+  let (nsrc, r) ← pNat args
+  let (_, r) ← pNat r
+  let (_, r) ← pNat r
+  if r ≠ [] then none
+  match pConcEvs (impl.length + 1) impl with
+  | none => some ("bad-trace", if impl.any (·.startsWith "panic") then "fail" else "bad-impl")
+  | some evs =>
+    let z := List.replicate nsrc 0
+    some (unwords impl, if concCheck nsrc evs z z none then "ok" else "fail")
+
+/-! ### c07.proto: the save protocol under injected failures and kills -/
+
+def pOk : String → Option Bool := bool?
+
+def pTraceOp (t : String) : Option SaveProto.Op :=
+  match t.splitOn "." with
+  | ["open", b] => (pOk b).map .openTrunc
+  | ["write", n, b] => do let k ← nat? n; let ok ← pOk b; pure (.write k ok)
+  | ["fsync", b] => (pOk b).map .fsync
+  | ["rename", b] => (pOk b).map .rename
+  | ["close", b] => (pOk b).map .close
+  | ["unlink", b] => (pOk b).map .unlink
+  | _ => none
+
+def encTraceOp : SaveProto.Op → String
+  | .openTrunc b => "open." ++ ofBool b
+  | .write n b => "write." ++ toString n ++ "." ++ ofBool b
+  | .fsync b => "fsync." ++ ofBool b
+  | .rename b => "rename." ++ ofBool b
+  | .close b => "close." ++ ofBool b
+  | .unlink b => "unlink." ++ ofBool b
+
+def encOptBytes : Option Bytes → String
+  | none => "none"
+  | some b => Hex.enc b
+
+def pOptBytes (t : String) : Option (Option Bytes) :=
+  if t = "none" then some none else (bytes? t).map some
+
+structure ProtoObs where
+  ops    : List SaveProto.Op
+  killed : Bool
+  disk   : Option Bytes
+  load   : List String
+
+def pObs (impl : List String) : Option ProtoObs := do
+  let (toks, r) ← pCounted tok impl
+  let ops ← toks.mapM pTraceOp
+  match r with
+  | "killed" :: k :: "disk" :: d :: "load" :: l => do
+    let kb ← bool? k
+    let dk ← pOptBytes d
+    pure ⟨ops, kb, dk, l⟩
+  | _ => none
+
+/-- model side of a protocol case: replay the observed ops through the program of `v` -/
+def protoModel (v : SaveProto.Variant) (data : Bytes) (old : Option Bytes) (o : ProtoObs)
+    (encLoad : Option Bytes → String) : String :=
+  match TS.firstReject (SaveProto.step? v data) (SaveProto.init old) o.ops 0 with
+  | some i => s!"reject@{i}"
+  | none =>
+    match SaveProto.run v data (SaveProto.init old) o.ops with
+    | none => "reject"
+    | some s =>
+      if !o.killed && s.pc != .done then "incomplete" else
+      let disk := SaveProto.crashKill s.fs
+      unwords [encList encTraceOp o.ops, "killed", ofBool o.killed, "disk", encOptBytes disk,
+               "load", encLoad disk]
+
+def skipFaults : Nat → List String → Option (List String)
+  | 0, ts => some ts
+  | n + 1, _ :: _ :: ts => skipFaults n ts
+  | _, _ => none
+
+def handleProto (args impl : List String) : Option (String × String) :=
+  match args with
+  | variant :: nf :: rest => do
+    let k ← nat? nf
+    let r ← skipFaults k rest
+    let (ho, r) ← tok r
+    let hasOld ← bool? ho
+    if variant = "file" then do
+      let (told, r) ← pTable r
+      let (tnew, r) ← pTable r
+      if r ≠ [] then none
+      let data := render tnew
+      let old := if hasOld then some (render told) else none
+      match pObs impl with
+      | none => some ("bad-impl", "bad-impl")
+      | some o =>
+        let m := protoModel .fileFixed data old o (fun d => encLoaded (load 0 d))
+        let want1 := encLoaded (.ok (if hasOld then live told else []))
+        let want2 := encLoaded (.ok (live tnew))
+        let l := unwords o.load
+        let p := (l == want1 || l == want2) && protoHolds data old o.ops o.disk
+        some (m, if p then "ok" else "fail")
+    else if variant = "gen" then do
+      let (bold, r) ← pBytes r
+      let (bnew, r) ← pBytes r
+      if r ≠ [] then none
+      let old := if hasOld then some bold else none
+      match pObs impl with
+      | none => some ("bad-impl", "bad-impl")
+      | some o =>
+        let m := protoModel .genFixed bnew old o encOptBytes
+        let l := unwords o.load
+        let p := (l == encOptBytes old || l == encOptBytes (some bnew)) && protoHolds bnew old o.ops o.disk
+        some (m, if p then "ok" else "fail")
+    else none
+  | _ => none
+
+def handle (cmd : String) (args impl : List String) : Option (String × String) :=
+  if cmd = "c07.rt" then handleRt args impl
+  else if cmd = "c07.parse" then handleParse args impl
+  else if cmd = "c07.seq" then handleSeq args impl
+  else if cmd = "c07.proto" then handleProto args impl
+  else if cmd = "c07.conc" then handleConc args impl
+  else none
 
 end FileD.DrvC07
